@@ -9,6 +9,7 @@
 -/
 import Psa.Proofs.Registry
 import Psa.Tie.Facts.State
+import Psa.Proofs.ProfileTag
 namespace Psa.Props.C16
 open Psa Psa.Model Psa.Model.Reg Psa.Proofs.Reg
 
@@ -64,6 +65,41 @@ theorem failed_registration_changes_nothing (reg : Registry) (p : ProfDesc)
     · exact register_dup reg p h
     · exact register_notag reg p h
   exact ⟨he, step_register_fail reg p (by rw [he]; intro r hr; cases hr), by simp [step, he]⟩
+
+/-! ### which claims types have an identifiable profile field (`encoding.GetProfileJSONTag`, the walk registration runs) -/
+
+/-- the JSON tag registration stores for a claims value described by `d`: what the walk finds, `none` on any error -/
+def tagOfType (d : PTag.TDesc) : Option Bytes :=
+  match PTag.getProfileJSONTag d with
+  | .ok t => some (strBytes t)
+  | _ => none
+
+/-- **the walk returns a tag or an error for every value** — structs, pointers, nil pointers, interfaces holding
+    values or pointers, at any embedding depth (since fix 0ef7c5d; `old_walk_panicked` below is the former behaviour) -/
+theorem profile_tag_total (d : PTag.TDesc) : PTag.getProfileJSONTag d ≠ .panic := Proofs.PTag.get_total d
+
+/-- **a claims type with no identifiable profile field is refused and nothing changes**: no own field with CBOR key
+    265 / -75000 or named `Profile` without a `cbor` tag, and none in any embedded struct or in what an embedded
+    interface holds -/
+theorem no_profile_field_registration_fails (reg : Registry) (p : ProfDesc) (d : PTag.TDesc)
+    (hp : p.jsonTag = tagOfType d) (h : PTag.hasProfile d = false) (h' : ∀ e, d = .ptr e → PTag.hasProfile e = false) :
+    register reg p = .err eOther ∧ (step reg (.register p)).1 = reg ∧ (step reg (.register p)).2 = .err := by
+  apply failed_registration_changes_nothing reg p
+  right
+  rw [hp, tagOfType, Proofs.PTag.get_noProfile d h h']
+
+/-- the walk before the repair: a claims type whose embedded interface holds a *pointer* (what the populate helpers
+    require) made `NumField` panic — found by this check, replayed on the implementation, repaired in /repo 0ef7c5d -/
+theorem old_walk_panicked :
+    PTag.tagOfOld (.struct (.cons ⟨"I", true, "I", .iface, none, none⟩
+      (.ptr (.struct (.cons ⟨"P", false, "", .ptr, some "265", some "eat-profile"⟩ .other .nil))) .nil)) = .panic := by
+  decide
+
+-- non-vacuity: the same value through the repaired walk; a type without a profile field; the own field wins
+example : PTag.getProfileJSONTag (.ptr (.struct (.cons ⟨"I", true, "I", .iface, none, none⟩
+      (.ptr (.struct (.cons ⟨"P", false, "", .ptr, some "265", some "eat-profile"⟩ .other .nil))) .nil))) = .ok "eat-profile" := by
+  decide
+example : PTag.hasProfile (.struct (.cons ⟨"A", false, "", .ptr, some "1", some "a"⟩ .other .nil)) = false := by decide
 
 /-- **append-only**: a successful registration only adds one entry at the end; nothing is removed or replaced -/
 theorem registration_appends (reg r : Registry) (p : ProfDesc) (h : register reg p = .ok r) :
